@@ -778,10 +778,15 @@ def attribute(drv, case, res, cfg, eager, upto):
 
 
 ALTER_KEY = "C02/alter/literal-equal-to-stale-cached-value-keeps-the-CONST-value"
+MPLEX_ALTER_KEY = "C02/mplex/start-value-cache-survives-metadata-change"
 MPLEX_KEY = "C02/mplex/lookback-restores-pointers-with-whence-as-file-mode"
 MPLEX_CACHE_KEY = "C02/mplex/start-value-cache-survives-putdata-on-an-input"
 
 WITNESSES = {
+    MPLEX_ALTER_KEY: dict(
+        enc="none", raws=[dict(name="r0", type="UINT8", vals=list(range(100))), dict(name="r1", type="UINT8", vals=[k % 4 for k in range(100)])],
+        derived=[dict(name="mx", kind="X", cnt="r1", cval=2, period=0, **{"in": "r0"})],
+        ops=[("k", -1), ("g", "mx", 10, 9, "i64"), ("a", "X", "mx", "r1", "r1", 2, 0), ("g", "mx", 19, 3, "i64")]),
     ALTER_KEY: dict(
         enc="none", raws=[dict(name="r0", type="UINT8", vals=list(range(100)))], consts={"km": 2, "kb": -8},
         derived=[dict(name="d0", kind="L", m=2, b=-8, mc="km", bc="kb", **{"in": "r0"})],
@@ -985,6 +990,9 @@ def main():
         if key is None and in_model(case, strict=False) and len(res) == len(case["ops"]):
             hits = attribute(drv, case, res, cfg, True, i)
             if len(hits) >= 1: key = KEYS[hits[0]]
+        if key is None and any(f["kind"] == "X" for f in case.get("derived", [])) and any(o[0] in "aC" for o in case["ops"][:i]) \
+                and case["ops"][i][0] == "g" and case["ops"][i][1].startswith("mx"):
+            key = MPLEX_ALTER_KEY
         if key is None and any(f.get("mc") for f in case.get("derived", [])) and any(
                 o[0] == "a" and o[1] == "L" and [f for f in case["derived"] if f["name"] == o[2] and f.get("mc")] for o in case["ops"][:i]):
             key = ALTER_KEY
